@@ -548,7 +548,12 @@ class LRUCache(CacheBase):
     def set_max_size(self, max_size: int) -> None:
         if max_size < 1:
             max_size = 1
-        self.max_size = max_size
+        with self.lock:
+            self.max_size = max_size
+            while len(self.data) > self.max_size:
+                gnode = self.sentinel.prev
+                gnode.unlink()
+                del self.data[gnode.key]
 
     def get(self, key: CacheKey) -> Answer | None:
         """Get the answer associated with *key*.
